@@ -263,3 +263,6 @@ func LookupSRV(service, proto, name string) (string, []*net.SRV, error) {
 	}
 	return "", nil, &net.DNSError{Err: "no such host", Name: name, IsNotFound: true}
 }
+
+// Peer returns the other end of the connection.
+func (c *Conn) Peer() *Conn { return c.peer }
